@@ -46,6 +46,37 @@ def ref_force(model, d, p):
     raise RuntimeError("harness: no reference for " + model)
 
 
+def ref_force_np(model, d, p):
+    """the same literature formulas for an array of depths (d <= 0 gives
+    0); used to *generate* curves independently of nanite (C01)"""
+    d = np.asarray(d, dtype=float)
+    dd = np.where(d > 0, d, 0.0)
+    if model == "hertz_para":
+        F = 4 / 3 * p["E"] / (1 - p["nu"] ** 2) * np.sqrt(p["R"]) \
+            * dd ** 1.5
+    elif model == "hertz_cone":
+        F = 2 * np.tan(np.radians(p["alpha"])) / np.pi \
+            * p["E"] / (1 - p["nu"] ** 2) * dd ** 2
+    elif model == "hertz_pyr3s":
+        F = 0.8887 * np.tan(np.radians(p["alpha"])) \
+            * p["E"] / (1 - p["nu"] ** 2) * dd ** 2
+    elif model == "sneddon_spher_approx":
+        r = dd / p["R"]
+        F = 4 / 3 * p["E"] / (1 - p["nu"] ** 2) * np.sqrt(p["R"]) \
+            * dd ** 1.5 * (1 - r / 10 - r ** 2 / 840 + 11 * r ** 3 / 15120
+                           + 1357 * r ** 4 / 6652800)
+    elif model == "power_layer_clifford_2009":
+        a = np.sqrt(p["R"] * dd)
+        xi = a / p["t"] * (p["E_L"] / p["E_S"]) ** (2 / 3) \
+            * (1 - 0.22 * p["nu_S"] ** 2) / (1 - 1.92 * p["nu_L"] ** 2)
+        q = 2.25 * xi ** 1.5
+        F = 4 / 3 * (p["E_L"] + (p["E_S"] - p["E_L"]) * q / (1 + q)) \
+            * np.sqrt(p["R"]) * dd ** 1.5
+    else:
+        raise RuntimeError("harness: no reference for " + model)
+    return np.where(d > 0, F, 0.0)
+
+
 def sneddon_exact(a, E, R, nu):
     """exact Sneddon sphere, parametric in the contact radius a"""
     L = math.log((R + a) / (R - a))
@@ -248,6 +279,14 @@ def run(tier):
                              "nu": [0.0, 0.3, 0.5]}, kind="sneddon")
     cl2 = grid.run_cases(rep, __name__, "sneddon_fn", sn, chunk=4,
                          label="sneddon_cells")
+    # harness self-check: array and scalar references agree
+    for mk, box in PARAM_GRID.items():
+        pp = {k: v[-1] for k, v in box.items()}
+        dd = np.array([0.0, 1e-9, 3e-7, 1e-6])
+        a = ref_force_np(mk, dd, pp)
+        b = [ref_force(mk, float(x), pp) if x > 0 else 0.0 for x in dd]
+        if not np.allclose(a, b, rtol=1e-13, atol=0):
+            rep.harness(f"reference implementations disagree for {mk}")
     vs, ndoc = doc_constants()
     rep.extend(vs)
     rep.add("evaluations", ndoc)
